@@ -206,6 +206,10 @@ def showExprW : Expr → List String
   | .inList n e xs => ((if n then "nin" else "in") ++ toString xs.length) :: (showExprW e ++ showExprsW xs)
   | .caseWhen parts => s!"case{parts.length / 2}" :: showCaseW parts
   | .caseOf x parts => s!"casex{parts.length / 2}" :: (showExprW x ++ showCaseW parts)
+  | .strFn f e =>
+    (match f with | .upper => "upper" | .lower => "lower" | .length => "length" | .ltrim => "ltrim" | .rtrim => "rtrim")
+      :: showExprW e
+  | .concat a b => "cat" :: (showExprW a ++ showExprW b)
 def showCaseW : List Expr → List String
   | [] => ["noelse"]
   | [e] => "else" :: showExprW e
